@@ -778,6 +778,12 @@ def corpus_repeat(tier, seed, rnd):
         if rnd.random() < 0.3:
             c["n_final"] = c["N"] * 2
         pp = {"cfg": c}
+        if smp == "minipcn_smc":
+            # every array namespace for every way of supplying the generator
+            c["ns"] = ["numpy", "torch", "jax"][i % 3]
+            c["rng_route"] = ["init", "sample"][(i // 3) % 2]
+            if c["ns"] != "numpy":
+                c["dtype"] = "float64"
         if i % 3 == 2:
             pp["same_object"] = True
             c["rng_route"] = "init" if i % 2 else "sample"
